@@ -137,7 +137,14 @@ pub fn scenario(g: &mut G, ctx: &RunCtx) -> RunReport {
         Framing::Close => {}
     }
     if coding != Coding::None && !as_te {
-        headers.push(((*g.pick(&["Content-Encoding", "content-encoding"])).to_string(), label.as_bytes().to_vec()));
+        if g.chance(1, 5) {
+            // the same list spread over two field lines (RFC 9110 5.3: equivalent to one comma-separated line)
+            headers.push(("Content-Encoding".into(), b"identity".to_vec()));
+            headers.push(((*g.pick(&["Content-Encoding", "content-encoding"])).to_string(), label.as_bytes().to_vec()));
+            g.probe("coding-list-over-two-field-lines");
+        } else {
+            headers.push(((*g.pick(&["Content-Encoding", "content-encoding"])).to_string(), label.as_bytes().to_vec()));
+        }
     }
     let allow = !g.chance(1, 6);
     let (chunks, styles) = if framing == Framing::Chunked { bodyx::gen_chunks(g, wire_body.len()) } else { (vec![], vec![]) };
